@@ -747,14 +747,24 @@ func (l *Lowerer) lowerStruct(s *parser.StructDecl) error {
 	return nil
 }
 
+// attrArgNotConst reports an attribute argument that is not a constant u32
+// expression. Keeping the default instead would silently change the layout,
+// the interface or the workgroup size the source asks for.
+func (l *Lowerer) attrArgNotConst(attr *parser.Attribute) {
+	l.addError(fmt.Sprintf("@%s: the argument must be a constant expression that evaluates to a non-negative integer", attr.Name), attr.Span)
+}
+
 // getAlignAttribute extracts the value from an @align(N) attribute, returns 0 if not found.
 // N is a constant expression (WGSL): literals with suffix or in hexadecimal and
 // named constants are evaluated, not only plain decimal literals.
 func (l *Lowerer) getAlignAttribute(attrs []parser.Attribute) uint32 {
-	for _, attr := range attrs {
+	for i := range attrs {
+		attr := &attrs[i]
 		if attr.Name == "align" && len(attr.Args) == 1 {
 			if val, ok := l.evalConstU32Expr(attr.Args[0]); ok {
 				return val
+			} else {
+				l.attrArgNotConst(attr)
 			}
 		}
 	}
@@ -763,10 +773,13 @@ func (l *Lowerer) getAlignAttribute(attrs []parser.Attribute) uint32 {
 
 // getSizeAttribute extracts the value from a @size(N) attribute, returns 0 if not found.
 func (l *Lowerer) getSizeAttribute(attrs []parser.Attribute) uint32 {
-	for _, attr := range attrs {
+	for i := range attrs {
+		attr := &attrs[i]
 		if attr.Name == "size" && len(attr.Args) == 1 {
 			if val, ok := l.evalConstU32Expr(attr.Args[0]); ok {
 				return val
+			} else {
+				l.attrArgNotConst(attr)
 			}
 		}
 	}
@@ -894,7 +907,8 @@ func (l *Lowerer) lowerGlobalVar(v *parser.VarDecl) error {
 	// Parse @group and @binding attributes
 	hasGroup := false
 	hasBinding := false
-	for _, attr := range v.Attributes {
+	for i := range v.Attributes {
+		attr := &v.Attributes[i]
 		if attr.Name == "group" && len(attr.Args) > 0 {
 			if group, ok := l.evalConstU32Expr(attr.Args[0]); ok {
 				if binding == nil {
@@ -902,6 +916,8 @@ func (l *Lowerer) lowerGlobalVar(v *parser.VarDecl) error {
 				}
 				binding.Group = group
 				hasGroup = true
+			} else {
+				l.attrArgNotConst(attr)
 			}
 		}
 		if attr.Name == "binding" && len(attr.Args) > 0 {
@@ -911,6 +927,8 @@ func (l *Lowerer) lowerGlobalVar(v *parser.VarDecl) error {
 				}
 				binding.Binding = bind
 				hasBinding = true
+			} else {
+				l.attrArgNotConst(attr)
 			}
 		}
 	}
@@ -13219,6 +13237,8 @@ func (l *Lowerer) collectBinding(attrs []parser.Attribute) *ir.Binding {
 						locBinding = &ir.LocationBinding{}
 					}
 					locBinding.Location = loc
+				} else {
+					l.attrArgNotConst(attr)
 				}
 			}
 		case "blend_src":
@@ -13229,6 +13249,8 @@ func (l *Lowerer) collectBinding(attrs []parser.Attribute) *ir.Binding {
 					}
 					v := idx
 					locBinding.BlendSrc = &v
+				} else {
+					l.attrArgNotConst(attr)
 				}
 			}
 		case "interpolate":
